@@ -11,16 +11,27 @@ from vt.core import Part
 
 META = {
     'level': 'model_checking',
-    'engine': 'E',
-    'technique': 'exhaustive enumeration of plans x per-host pool states on the real Session/ResponseFuture vs a reference walk of the plan',
+    'engine': 'E+S',
+    'technique': 'exhaustive enumeration of plans x per-host pool states on the real Session/ResponseFuture vs a reference walk of the plan; '
+                 'BFS over response/timer histories with speculative executions in flight; all reactor/executor schedules with <= 1 preemption',
     'text': 'All permutations of 3 (quick) / 4 (thorough) hosts as query plan, and explicit host targeting, crossed with every '
             'assignment of a pool state to each host from {no pool, pool shut down, connection busy (write buffer full), all stream '
             'ids in use, connection closed under the pool, healthy-then-retry-next-host, healthy}: frames must reach exactly the '
             'hosts the reference walk visits, in order, none twice; NoHostAvailable only when the plan is exhausted, with '
             'exactly the visited hosts as keys and the documented reason class per host.  Every case is run twice: on fresh '
-            'connections and from the state in which the next stream id a connection hands out is 0.',
+            'connections and from the state in which the next stream id a connection hands out is 0.  Speculative layer (several '
+            'attempts of one request in flight on different hosts): BFS over every order of {speculative timer fires, outstanding '
+            'attempt i answered with rows / overloaded + decision RETRY, RETRY_NEXT_HOST, RETHROW} with 1-2 speculative executions '
+            'over 3-host plans with one host unusable or all healthy: a RETRY adds a frame for the host whose attempt failed and no '
+            'other, new hosts are taken in plan order, NoHostAvailable only after the shared plan is exhausted and listing every '
+            'skipped or failed host.  Schedule layer: the error response is delivered by a reactor thread (_set_result -> '
+            '_handle_retry_decision -> _retry) while an executor worker runs the queued _retry_task -> send_request -> _query; every '
+            'schedule with at most one preemption at any source line of those methods, for every 2- and 3-host plan over {no pool, '
+            'busy, retry-next-host, retry-same-host-then-next, healthy} with at least one retried attempt (thorough: + 4 hosts), '
+            'same oracle: frames, outcome and exactly the attempted hosts as NoHostAvailable.errors keys.',
     'note': 'Pool states are established through the pool/connection API after a normal connect (remove_pool, shutdown, '
-            '_socket_writable=False as reactors do under back-pressure, in_flight saturated, connection.close()).',
+            '_socket_writable=False as reactors do under back-pressure, in_flight saturated, connection.close()).  NoHostAvailable.errors '
+            'is read after all threads have finished.',
     'design_ref': 'C17',
 }
 
@@ -42,29 +53,46 @@ def reference(plan, states):
     return frames, errors, 'NoHostAvailable'
 
 
+def setup_states(st, addrs, states):
+    """Put the pool of every host into its state through the pool/connection API; -> {address: Host}"""
+    by = dict((h.endpoint.address, h) for h in st.cluster.metadata.all_hosts())
+    for a in addrs:
+        s = states[a]
+        pool = st.session._pools.get(by[a])
+        if s == 'missing':
+            st.session.remove_pool(by[a])
+        elif s == 'shutdown':
+            pool.shutdown()
+        elif s == 'busy':
+            pool._connection._socket_writable = False
+        elif s == 'full':
+            c = pool._connection
+            with c.lock:
+                c.in_flight = c.max_request_id
+        elif s == 'closed':
+            pool._connection.close()
+    while st.w.tasks:
+        st.w.run_task(0)
+        st.w.deliver_outbox()
+    return by
+
+
+def final_state(f):
+    """-> (outcome, {address: reason class} | None)"""
+    if not f._event.is_set():
+        return 'open', {}
+    if f._final_exception is not None:
+        e = f._final_exception
+        return type(e).__name__, dict((k.endpoint.address if hasattr(k, 'endpoint') else str(k), type(v).__name__)
+                                      for k, v in getattr(e, 'errors', {}).items())
+    return 'rows', None
+
+
 def play(n, plan, states, target, id0=False):
     addrs = ['10.0.0.%d' % (i + 1) for i in range(n)]
     st = reqworld.ReqWorld(dict(hosts=n, order=list(plan), timeout=100.0, id0=id0))
     try:
-        by = dict((h.endpoint.address, h) for h in st.cluster.metadata.all_hosts())
-        for a in addrs:
-            s = states[a]
-            pool = st.session._pools.get(by[a])
-            if s == 'missing':
-                st.session.remove_pool(by[a])
-            elif s == 'shutdown':
-                pool.shutdown()
-            elif s == 'busy':
-                pool._connection._socket_writable = False
-            elif s == 'full':
-                c = pool._connection
-                with c.lock:
-                    c.in_flight = c.max_request_id
-            elif s == 'closed':
-                pool._connection.close()
-        while st.w.tasks:
-            st.w.run_task(0)
-            st.w.deliver_outbox()
+        by = setup_states(st, addrs, states)
         st.retry.next = ('RETRY_NEXT_HOST', None)
         kw = {'host': by[target]} if target else {}
         f = st.execute('x', **kw)
@@ -81,15 +109,7 @@ def play(n, plan, states, target, id0=False):
             if not pend and not st.w.tasks:
                 break
         frames = [a for a, r in st.sent_app_requests() if r.get('query') == 'SELECT x']
-        if not f._event.is_set():
-            out, errors = 'open', {}
-        elif f._final_exception is not None:
-            e = f._final_exception
-            out = type(e).__name__
-            errors = dict((k.endpoint.address if hasattr(k, 'endpoint') else str(k), type(v).__name__)
-                          for k, v in getattr(e, 'errors', {}).items())
-        else:
-            out, errors = 'rows', None
+        out, errors = final_state(f)
         return frames, errors, out
     finally:
         st.close()
@@ -111,17 +131,321 @@ def run_chunk(cases):
         if len(set(svec)) > 1:
             part.mark_nontrivial(repr((plan, svec, target, id0)))
         part.sample(dict(case, frames=got[0], outcome=got[2], errors=got[1]), limit=2)
-        if got[0] != ref[0]:
-            kind = 'twice' if len(set(got[0])) != len(got[0]) else 'order'
-            part.violation('C17/hosts-tried/%s' % kind, 'frames reached %r, reference %r for %r' % (got[0], ref[0], case), case)
-        if got[2] != ref[2]:
-            part.violation('C17/outcome/%s' % ref[2], 'outcome %r, reference %r for %r' % (got[2], ref[2], case), case)
-        elif ref[2] == 'NoHostAvailable' and got[1] != ref[1]:
-            missing = sorted(set(ref[1]) - set(got[1]))
-            extra = sorted(set(got[1]) - set(ref[1]))
-            kind = 'keys' if (missing or extra) else 'reason'
-            part.violation('C17/errors/%s' % kind, 'NoHostAvailable.errors %r, reference %r for %r' % (got[1], ref[1], case), case)
+        judge(part, case, got, ref, 'C17')
     return part
+
+
+def judge(part, case, got, ref, fp, text=None):
+    """got / ref = (frames, errors, outcome); the clauses of the statement, shared by the layers"""
+    text = text or repr(case)
+    if got[0] != ref[0]:
+        kind = 'twice' if len(set(got[0])) != len(got[0]) else 'order'
+        part.violation('%s/hosts-tried/%s' % (fp, kind), 'frames reached %r, reference %r for %s' % (got[0], ref[0], text), case)
+    if got[2] != ref[2]:
+        part.violation('%s/outcome/%s' % (fp, ref[2]), 'outcome %r, reference %r for %s' % (got[2], ref[2], text), case)
+    elif ref[2] == 'NoHostAvailable' and got[1] != ref[1]:
+        missing = sorted(set(ref[1]) - set(got[1]))
+        extra = sorted(set(got[1]) - set(ref[1]))
+        kind = 'keys' if (missing or extra) else 'reason'
+        part.violation('%s/errors/%s' % (fp, kind), 'NoHostAvailable.errors %r, reference %r for %s' % (got[1], ref[1], text), case)
+
+
+# ====================================================================== several attempts in flight (speculative executions)
+from vt import explore          # noqa: E402
+
+ADDRS3 = ['10.0.0.1', '10.0.0.2', '10.0.0.3']
+SKIP = ('missing', 'shutdown', 'busy', 'full', 'closed')
+
+
+class HSpec(explore.Harness):
+    """One request with a speculative-execution policy on a 3-host plan: every order of {speculative timer fires,
+    outstanding attempt i answered with rows / an overloaded error + decision RETRY, RETRY_NEXT_HOST, RETHROW}.
+    The reference walks the shared plan: a speculative execution and a RETRY_NEXT_HOST take the next usable host
+    (recording why the unusable ones were skipped), a RETRY adds one frame for the host whose attempt failed and for
+    no other host.  The client timeout is not part of this layer (timers are fired only while speculative executions
+    remain)."""
+    name = 'c17-spec'
+
+    def init(self):
+        p = self.params
+        st = reqworld.ReqWorld(dict(hosts=3, spec=p['spec'], spec_delay=1.0, timeout=100.0))
+        states = dict(zip(ADDRS3, p['states']))
+        setup_states(st, ADDRS3, states)
+        st.m = m = {'frames': [], 'k': 0, 'errors': {}, 'done': None, 'spec_fired': 0, 'states': states}
+        if self.walk(m) is None:
+            m['done'] = 'NoHostAvailable'
+        st.execute('x', idempotent=True)
+        return st
+
+    @staticmethod
+    def walk(m):
+        while m['k'] < len(ADDRS3):
+            h = ADDRS3[m['k']]
+            m['k'] += 1
+            if m['states'][h] in SKIP:
+                m['errors'][h] = REASON[m['states'][h]]
+                continue
+            m['frames'].append(h)
+            return h
+        return None
+
+    def events(self, st):
+        evs = []
+        if st.m['done'] is not None:
+            return evs
+        for i in range(len(st.pending())):
+            evs.append((('respond', i, 'rows', ''), 0))
+            for d in self.params['decisions']:
+                evs.append((('respond', i, 'overloaded', d), 0))
+        if st.m['spec_fired'] < self.params['spec'] and st.w.live_timers():
+            evs.append((('timer',), 0))
+        return evs
+
+    def apply(self, st, ev):
+        m = st.m
+        if ev[0] == 'timer':
+            m['spec_fired'] += 1
+            self.walk(m)                 # an exhausted plan is not an error for a speculative execution
+            st.w.fire_timer(st.w.live_timers()[0])
+        else:
+            _, i, kind, d = ev
+            host = st.pending()[i].conn.endpoint.address
+            if kind == 'rows':
+                m['done'] = 'rows'
+            elif d == 'RETHROW':
+                m['done'] = 'OverloadedErrorMessage'
+            elif d == 'RETRY':
+                m['frames'].append(host)
+            else:
+                m['errors'][host] = 'OverloadedErrorMessage'
+                if self.walk(m) is None:
+                    m['done'] = 'NoHostAvailable'
+            st.retry.next = (d or 'RETHROW', None)
+            st.respond(i, kind)
+        guard = 0
+        while st.w.tasks and guard < 50:
+            st.w.run_task(0)
+            st.w.deliver_outbox()
+            guard += 1
+
+    def observed(self, st):
+        frames = [a for a, r in st.sent_app_requests() if r.get('query') == 'SELECT x']
+        out, errors = final_state(st.futures[0])
+        return frames, errors, out
+
+    def canon(self, st):
+        m = st.m
+        return (tuple(m['frames']), m['k'], m['done'], m['spec_fired'], tuple(sorted(m['errors'].items())),
+                repr(self.observed(st)), st.pending_canon(), st.timers_canon())
+
+    def check(self, st, part, hist):
+        m = st.m
+        frames, errors, out = self.observed(st)
+        data = {'params': self.params, 'history': hist}
+        text = 'pool states %r after %r' % (self.params['states'], hist)
+        part.outcome((m['done'] or 'open', len(frames), len(st.pending())))
+        if len(frames) >= 3:
+            part.mark_nontrivial(repr((self.params['states'], tuple(frames), m['done'])))
+        if frames != m['frames']:
+            over = [h for h in set(frames) if frames.count(h) > m['frames'].count(h)]
+            kind = 'twice' if any(frames.count(h) > 1 for h in over) else 'order'
+            part.violation('C17/spec/hosts-tried/%s' % kind, 'frames reached %r, reference %r for %s' % (frames, m['frames'], text), data)
+        want = m['done'] or 'open'
+        if out != want:
+            part.violation('C17/spec/outcome/%s' % want, 'outcome %r, reference %r for %s' % (out, want, text), data)
+        elif want == 'NoHostAvailable':
+            # every host that was skipped or whose attempt failed is listed with its reason; a host whose attempt is
+            # still outstanding (or was retried in place) may be listed or not
+            missing = sorted(h for h in m['errors'] if h not in errors)
+            extra = sorted(h for h in errors if h not in m['errors'] and h not in m['frames'])
+            if missing or extra:
+                part.violation('C17/spec/errors/keys', 'NoHostAvailable.errors %r, reference %r (missing %r, unexpected %r) for %s'
+                               % (errors, m['errors'], missing, extra, text), data)
+            elif any(errors[h] != r for h, r in m['errors'].items()):
+                part.violation('C17/spec/errors/reason', 'NoHostAvailable.errors %r, reference %r for %s' % (errors, m['errors'], text), data)
+
+
+def spec_configs(quick):
+    dec = ['RETRY', 'RETRY_NEXT_HOST', 'RETHROW']
+    out = []
+    for spec, vectors in ((1, [('healthy',) * 3, ('healthy', 'busy', 'healthy'), ('healthy', 'missing', 'healthy'),
+                               ('healthy', 'healthy', 'full'), ('closed', 'healthy', 'healthy')]),
+                          (2, [('healthy',) * 3, ('healthy', 'shutdown', 'healthy')])):
+        for v in vectors:
+            out.append(('spec%d-%s' % (spec, '.'.join(x[:4] for x in v)), dict(spec=spec, states=list(v), decisions=dec),
+                        5 if quick else 7))
+    return out
+
+
+# ====================================================================== reactor thread x executor worker (engine S)
+from vt import sched            # noqa: E402
+
+SCHED_FOCUS_NAMES = ('_set_result', '_handle_retry_decision', '_retry', '_retry_task', 'send_request')
+_FOCUS = []
+
+
+def sched_reference(plan, states):
+    """the reference walk with the per-host scripts of the schedule layer"""
+    frames, errors = [], {}
+    for h in plan:
+        s = states[h]
+        if s == 'healthy':
+            frames.append(h)
+            return frames, errors, 'rows'
+        if s == 'retry_next':
+            frames.append(h)
+        elif s == 'retry_same_next':
+            frames += [h, h]
+        errors[h] = REASON.get(s, 'OverloadedErrorMessage')
+    return frames, errors, 'NoHostAvailable'
+
+
+@sched.gc_quiet
+def sched_harness(params, prefix, part):
+    """The retry path is split over two threads in the driver: the reactor thread that delivered the error response
+    runs _set_result -> _handle_retry_decision -> _retry (which only queues _retry_task), an executor worker runs
+    _retry_task -> send_request -> _query.  Here thread 'reactor' answers every attempt as soon as it is outstanding
+    (rows for a healthy host, an overloaded error for the others, the scripted policy deciding RETRY_NEXT_HOST, or
+    RETRY once and then RETRY_NEXT_HOST) and thread 'executor' runs queued tasks; every source line of the focus
+    methods is a scheduling point, so the queued retry may run before, inside or after the rest of the handler.
+    params: n, plan, states, target."""
+    from cassandra.cluster import ResponseFuture
+    if not _FOCUS:
+        _FOCUS.extend(getattr(ResponseFuture, n).__code__ for n in SCHED_FOCUS_NAMES)
+    n, plan, svec, target = params['n'], params['plan'], params['states'], params.get('target')
+    addrs = ['10.0.0.%d' % (i + 1) for i in range(n)]
+    states = dict(zip(addrs, svec))
+    st = reqworld.ReqWorld(dict(hosts=n, order=list(plan), timeout=100.0))
+    try:
+        w = st.w
+        by = setup_states(st, addrs, states)
+        st.retry.next = ('RETRY_NEXT_HOST', None)
+        f = st.execute('x', **({'host': by[target]} if target else {}))
+        s = sched.Scheduler(prefix, focus=_FOCUS, horizon=20000, clock=w.clock)
+        flags = {'reactor_done': False, 'executor_parked': False}
+        seen = {}
+
+        def mine():
+            return [p for p in st.pending() if p.req.get('query') == 'SELECT x']
+
+        def reactor():
+            try:
+                # whichever thread starts first, the race begins with the worker parked on its empty queue
+                s.block(lambda: flags['executor_parked'], None, 'reactor waits for the worker to park')
+                while True:
+                    s.block(lambda: bool(mine()) or f._event.is_set(), None, 'reactor waits for a request or the end')
+                    pend = mine()
+                    if not pend:
+                        break
+                    a = pend[0].conn.endpoint.address
+                    seen[a] = seen.get(a, 0) + 1
+                    if states[a] == 'healthy':
+                        kind = 'rows'
+                    else:
+                        kind = 'overloaded'
+                        st.retry.next = ('RETRY' if states[a] == 'retry_same_next' and seen[a] == 1 else 'RETRY_NEXT_HOST', None)
+                    st.respond(st.pending().index(pend[0]), kind)
+            finally:
+                flags['reactor_done'] = True
+
+        def executor():
+            flags['executor_parked'] = True
+            while True:
+                s.block(lambda: bool(w.tasks) or flags['reactor_done'], None, 'executor idle')
+                if w.tasks:
+                    w.run_task(0)
+                    w.deliver_outbox()
+                elif flags['reactor_done']:
+                    break
+
+        s.spawn(executor, 'executor')        # first: it parks itself until a task is queued
+        s.spawn(reactor, 'reactor')
+        s.run()
+        data = {'sched': True, 'params': params, 'prefix': s.choices()}
+        text = '%r with schedule %r' % (params, s.choices())
+        if s.failure:
+            part.violation('C17/sched/%s' % s.failure[0], '%s for %s' % (s.failure[1], text), data)
+            return s
+        for t in s.threads:
+            if t.exc is not None:
+                part.violation('C17/sched/thread-exception/%s/%s' % (type(t.exc).__name__, t.name),
+                               '%r in %s for %s\n%s' % (t.exc, t.name, text, getattr(t, 'exc_tb', '')), data)
+                return s
+        frames = [a for a, r in st.sent_app_requests() if r.get('query') == 'SELECT x']
+        out, errors = final_state(f)
+        got = (frames, errors, out)
+        ref = sched_reference([target] if target else list(plan), states)
+        judge(part, data, got, ref, 'C17/sched', text)
+        part.outcome(('sched', out, len(frames)))
+        if any(p.chosen for p in s.trace):
+            part.mark_nontrivial(repr((params, s.choices())))
+        part.sample({'params': params, 'choices': s.choices(), 'frames': frames, 'outcome': out, 'errors': errors}, limit=1)
+        return s
+    finally:
+        st.close()
+
+
+def sched_cases(quick):
+    """Plans in which at least one attempt is retried (otherwise no task is ever queued and the single-threaded layer
+    already covers the case)."""
+    out = []
+    for n in ((2, 3) if quick else (2, 3, 4)):
+        addrs = ['10.0.0.%d' % (i + 1) for i in range(n)]
+        alphabet = ['missing', 'busy', 'retry_next', 'retry_same_next', 'healthy'] if (n == 2 or not quick) and n < 4 else \
+            ['busy', 'retry_next', 'retry_same_next', 'healthy']
+        plans = [tuple(addrs), tuple(reversed(addrs))] if n == 2 else [tuple(addrs)]
+        for svec in itertools.product(alphabet, repeat=n):
+            states = dict(zip(addrs, svec))
+            for plan in plans:
+                ref = sched_reference(list(plan), states)
+                if not [h for h in ref[0] if states[h] != 'healthy']:
+                    continue
+                out.append({'n': n, 'plan': list(plan), 'states': list(svec), 'target': None})
+        for s0 in ('retry_next', 'retry_same_next'):
+            out.append({'n': n, 'plan': list(addrs), 'states': [s0] + ['healthy'] * (n - 1), 'target': addrs[0]})
+    return out
+
+
+def _sched_root(job):
+    params, bound = job
+    part = Part()
+    s = sched_harness(params, [], part)
+    part.count('sched_executions')
+    part.count('sched_steps', s.steps)
+    return part, [k for k, _ in sched.children(s.trace, 0, bound)], len(s.trace)
+
+
+def _sched_sub(job):
+    params, bound, frontier = job
+    part = Part()
+    while frontier:
+        nxt = []
+        for prefix in frontier:
+            s = sched_harness(params, prefix, part)
+            part.count('sched_executions')
+            part.count('sched_steps', s.steps)
+            nxt.extend(k for k, _ in sched.children(s.trace, len(prefix), bound))
+        frontier = nxt
+    return part
+
+
+def run_sched(ctx):
+    bound = 1
+    jobs = [(c, bound) for c in ctx.rotate(sched_cases(ctx.quick))]
+    roots = ctx.pmap(_sched_root, jobs)
+    sub = []
+    maxpts = 0
+    for (c, b), (part, kids, npts) in zip(jobs, roots):
+        ctx.merge(part)
+        maxpts = max(maxpts, npts)
+        k = max(1, min(len(kids), 4))
+        sub += [(c, b, kids[i::k]) for i in range(k) if kids[i::k]]
+    for part in ctx.pmap(_sched_sub, sub):
+        ctx.merge(part)
+    nexec = ctx.counters.get('sched_executions', 0)
+    ctx.cov.setdefault('harnesses', {})['c17-sched'] = {'configs': len(jobs), 'preemption_bound': bound, 'executions': nexec,
+                                                         'max_choice_points': maxpts, 'complete': True}
+    return nexec
 
 
 def cases(quick):
@@ -146,18 +470,35 @@ def cases(quick):
 
 
 def run(ctx):
+    for name, params, depth in spec_configs(ctx.quick):
+        explore.bfs(ctx, HSpec, params, max_depth=depth, label='c17-' + name, max_states=400000 if ctx.thorough else 60000)
+    bfs_states = ctx.counters.get('states', 0)
+    nexec = run_sched(ctx)
     cs = ctx.rotate(cases(ctx.quick))
     n = ctx.nproc * 4
     for part in ctx.pmap(run_chunk, [cs[i::n] for i in range(n) if cs[i::n]]):
         ctx.merge(part)
-    ctx.count('states', len(cs))
-    ctx.count('transitions', ctx.counters.get('evaluations', 0))
-    ctx.cov['rule'] = 'plans x per-host states x targeting enumerated completely; non-trivial = at least two different host states'
+    ctx.count('states', len(cs) + nexec)
+    ctx.count('transitions', ctx.counters.get('evaluations', 0) + ctx.counters.get('sched_steps', 0))
+    ctx.count('executions', nexec)
+    ctx.cov['rule'] = ('plans x per-host states x targeting enumerated completely (evaluations); speculative layer: BFS states = event histories '
+                       'replayed on a fresh Session (%d states), non-trivial = distinct (pool states, frames, outcome) with >= 3 frames; schedule '
+                       'layer: every schedule of the reactor and executor threads with <= 1 preemption (sched_executions), non-trivial = '
+                       'schedule with at least one non-default choice; single-threaded cases: non-trivial = at least two different host '
+                       'states' % bfs_states)
     ctx.cov['exhaustive'] = True
+    ctx.assume('speculative layer: the client timeout does not fire (timers are fired only while speculative executions remain)')
+    ctx.assume('schedule layer: one reactor thread and one executor worker; connection and pool code runs atomically between its lock operations')
 
 
 def replay(ctx, data):
-    part = run_chunk([(data['n'], tuple(data['plan']), tuple(data['states']), data['target'], data.get('id0', False))])
+    if data.get('sched'):
+        part = Part()
+        sched_harness(data['params'], data['prefix'], part)
+    elif 'history' in data:
+        part = explore.replay(HSpec, data['params'], [tuple(e) for e in data['history']])
+    else:
+        part = run_chunk([(data['n'], tuple(data['plan']), tuple(data['states']), data['target'], data.get('id0', False))])
     for fp, what, _ in part.violations:
         print(fp, '::', what)
     return bool(part.violations)
